@@ -89,6 +89,8 @@ class Ctx:
             num = poly.numerator(d)
             if num.is_zero():
                 return self._rec(name, "unsat", time.time() - t0, "eq", how="normalisation", key=key)
+            if poly.is_zero_poly(num):
+                return self._rec(name, "unsat", time.time() - t0, "eq", how="normalisation (cyclotomic arithmetic for cos(pi k/M))", key=key)
             resid = None
             if len(num.t) < 3000:
                 resid = poly.poly_to_node(num)
